@@ -1,0 +1,34 @@
+//go:build verif
+
+// Contracts for the closures of NSQLookupd.Main (round 6, area M; C15, C14), checked by /verif/cmd/nsqvc. Comment-only file.
+// Ghost records of sync.Once.Do: .trusted/r6M.spec.
+
+package nsqlookupd
+
+// Main$1 = exitFunc(err): every report of a server's exit goes through the once guard of THIS Main call, handing over the closure Main$1$1 -
+// so, sync.Once running its function for the first Do only (library), exactly one error is ever sent on the exit channel, and Main, which
+// receives exactly once, is not left with a second sender blocked for ever on the unbuffered channel: the second report is dropped by the guard.
+//@ ghost r6MLkExitReports int
+//@ ghost r6MLkExitReported error
+//@ ghostgroup r6MLkExitReports, r6MLkExitReported
+//@ func (l *NSQLookupd) Main$1(err error)
+//@   props C15 C14
+//@   nochan
+//@   ensures[through-the-once-guard] r6MLkOnceDos == old(r6MLkOnceDos) + 1 && r6MLkOnceFn == "(*github.com/nsqio/nsq/nsqlookupd.NSQLookupd).Main$1$1"
+//@   ensures[registry-untouched] mAddCalls == old(mAddCalls) && mRemCalls == old(mRemCalls) && mTombCalls == old(mTombCalls)
+//@   modifies r6MLkOnceDos, r6MLkExitReports
+//@   onreturn r6MLkExitReports := r6MLkExitReports + 1
+//@   onreturn r6MLkExitReported := err
+
+// Main$1$1 (the body run by once.Do): exactly one send on the exit channel, of the error the report carried.
+//@ func (l *NSQLookupd) Main$1$1()
+//@   props C15 C14
+//@   requires l != nil
+//@   ensures[passes-the-error-on-once] sent(exitCh) == old(sent(exitCh)) + 1 && lastsent(exitCh) == err
+//@   ensures[registry-untouched] mAddCalls == old(mAddCalls) && mRemCalls == old(mRemCalls) && mTombCalls == old(mTombCalls)
+//@   modifies chanstore(error)
+
+// Main$2 / Main$3 (the two server goroutines: `exitFunc(protocol.TCPServer(l.tcpListener, l.tcpServer, l.logf))` and
+// `exitFunc(http_api.Serve(l.httpListener, httpServer, "HTTP", l.logf))`) have NO contract: the call of `exitFunc` - a closure held in a variable of
+// the ENCLOSING function, captured by these closures - is an opaque dynamic call for the engine (only a closure variable of the same function is
+// followed), so nothing can be stated at their return; the servers they start (TCPServer, Serve) and exitFunc itself (Main$1) are verified.
